@@ -5,6 +5,7 @@
 
    The model state `rn` advances with Broadcast.tla's own operators.  What the code *did* is
    kept apart from the model, in observation variables:
+     onet    : (end-to-end level) every message that arrived at the observing libp2p host
      owire   : per history, every message observed leaving the node, in order (runner level:
                what passed the publish point / arrived on the topic; filter level: every
                message for which ProcessBroadcast returned true)
@@ -14,8 +15,8 @@
    clauses compare observations with the model (a failure is spec drift, exit 2).          *)
 EXTENDS Broadcast, Json, TLCExt
 CONSTANT TraceFile
-VARIABLES l, obs, owire, ologged, foreign, stack, bad
-tvars == <<rn, pc, l, obs, owire, ologged, foreign, stack, bad>>
+VARIABLES l, obs, owire, ologged, foreign, stack, onet, bad
+tvars == <<rn, pc, l, obs, owire, ologged, foreign, stack, onet, bad>>
 
 TraceLog == ndJsonDeserialize(TraceFile)
 Ev == TraceLog[l]
@@ -38,10 +39,10 @@ ActOf(lst) == [s \in {lst[i].sender : i \in DOMAIN lst} |->
 DumpOf(e) == [cur |-> e.cur, seen |-> SeenOf(e.seen), act |-> ActOf(e.act)]
 Peer(e) == [id |-> e.id, lt |-> e.lt]
 
-TInit == BInit /\ l = 1 /\ obs = NoObs /\ owire = <<>> /\ ologged = {} /\ foreign = FALSE /\ stack = <<>> /\ bad = {}
+TInit == BInit /\ l = 1 /\ obs = NoObs /\ owire = <<>> /\ ologged = {} /\ foreign = FALSE /\ stack = <<>> /\ onet = {} /\ bad = {}
 
 TrReset == /\ IsEvent("Reset") /\ rn' = InitR /\ obs' = NoObs /\ owire' = <<>> /\ ologged' = {}
-           /\ foreign' = Ev.foreign /\ stack' = <<>> /\ UNCHANGED pc
+           /\ foreign' = Ev.foreign /\ stack' = <<>> /\ onet' = {} /\ UNCHANGED pc
 
 \* -------------------------------------------------------------------- filter level
 TrFBroadcast ==
@@ -50,17 +51,17 @@ TrFBroadcast ==
        /\ rn' = [rn EXCEPT !.f = p.f]
        /\ obs' = [kind |-> "F", ok |-> Ev.ok, pred |-> p.ok, dump |-> DumpOf(Ev)]
        /\ owire' = IF Ev.ok THEN Append(owire, M(Ev.m)) ELSE owire
-  /\ UNCHANGED <<pc, ologged, foreign, stack>>
+  /\ UNCHANGED <<pc, ologged, foreign, stack, onet>>
 TrFReceive ==
   /\ IsEvent("FReceive")
   /\ rn' = [rn EXCEPT !.f = PR(@, Peer(Ev.peer), M(Ev.m))]
   /\ obs' = [kind |-> "FR", dump |-> DumpOf(Ev)]
-  /\ UNCHANGED <<pc, owire, ologged, foreign, stack>>
+  /\ UNCHANGED <<pc, owire, ologged, foreign, stack, onet>>
 \* depth-first enumeration of the real filter's state graph: remember / return to a state
 TrFPush == IsEvent("FPush") /\ stack' = <<[rn |-> rn, owire |-> owire]>> \o stack /\ obs' = NoObs
-           /\ UNCHANGED <<rn, pc, owire, ologged, foreign>>
+           /\ UNCHANGED <<rn, pc, owire, ologged, foreign, onet>>
 TrFPop == IsEvent("FPop") /\ stack # <<>> /\ rn' = Head(stack).rn /\ owire' = Head(stack).owire /\ stack' = Tail(stack)
-          /\ obs' = NoObs /\ UNCHANGED <<pc, ologged, foreign>>
+          /\ obs' = NoObs /\ UNCHANGED <<pc, ologged, foreign, onet>>
 
 \* -------------------------------------------------------------------- runner level
 \* what the call let through the publish point (in order), then anything else seen on the topic
@@ -85,7 +86,7 @@ TrBroadcast ==
      IN /\ rn' = nxt
         /\ obs' = RunnerObs("B", Ev, IF s.ok /\ Ev.abort = "none" THEN <<m>> ELSE <<>>)
   /\ owire' = owire \o Left(Ev) /\ ologged' = ologged \cup Snapshots(Ev)
-  /\ UNCHANGED <<pc, foreign, stack>>
+  /\ UNCHANGED <<pc, foreign, stack, onet>>
 
 \* the messages the model expects a rebroadcast to publish (any order)
 TrRebroadcast ==
@@ -94,7 +95,7 @@ TrRebroadcast ==
      IN /\ rn' = nxt.r
         /\ obs' = RunnerObs("R", Ev, nxt.pub)
   /\ owire' = owire \o Left(Ev) /\ ologged' = ologged \cup Snapshots(Ev)
-  /\ UNCHANGED <<pc, foreign, stack>>
+  /\ UNCHANGED <<pc, foreign, stack, onet>>
 
 \* death inside wal.Append of the call that was cut: its record is incomplete, hence unreadable
 TearLast(r) ==
@@ -106,39 +107,65 @@ TrRestart ==
   /\ IsEvent("Restart") /\ rn' = Restart(IF Ev.tear THEN TearLast(rn) ELSE rn)
   /\ obs' = [kind |-> "S", wal |-> MapM(Ev.wal), dump |-> DumpOf(Ev), self |-> MSet(Ev.self)]
   /\ ologged' = ologged \cup MSet(Ev.wal)
-  /\ UNCHANGED <<pc, owire, foreign, stack>>
+  /\ UNCHANGED <<pc, owire, foreign, stack, onet>>
 
 TrPurge ==
   /\ IsEvent("Purge") /\ rn' = PurgeWAL(rn, Ev.k)
   /\ obs' = [kind |-> "P", wal |-> MapM(Ev.wal), dump |-> DumpOf(Ev), self |-> MSet(Ev.self)]
-  /\ UNCHANGED <<pc, owire, ologged, foreign, stack>>
+  /\ UNCHANGED <<pc, owire, ologged, foreign, stack, onet>>
 
 TrReceive ==
   /\ IsEvent("Receive") /\ rn' = RemoteSeen(rn, Peer(Ev.peer), M(Ev.m))
   /\ obs' = [kind |-> "E", dump |-> DumpOf(Ev)]
-  /\ UNCHANGED <<pc, owire, ologged, foreign, stack>>
+  /\ UNCHANGED <<pc, owire, ologged, foreign, stack, onet>>
 
-TrInfo == IsEvent("Info") /\ obs' = NoObs /\ UNCHANGED <<rn, pc, owire, ologged, foreign, stack>>
+\* -------------------------------------------------------------------- end-to-end level (public F3 API, two hosts)
+\* F3.Broadcast was called with m (the outcome is observed by F3Enc / F3Wire events)
+TrF3Request == IsEvent("F3Request") /\ obs' = NoObs /\ UNCHANGED <<rn, pc, owire, ologged, foreign, stack, onet>>
+\* a message reached the publish point of the node (encoder call preceding topic.Publish)
+TrF3Enc ==
+  /\ IsEvent("F3Enc")
+  /\ obs' = [kind |-> "F3E", m |-> M(Ev.m), wal |-> MSet(Ev.wal), loggedBefore |-> ologged]
+  /\ owire' = IF Ev.aborted THEN owire ELSE Append(owire, M(Ev.m))
+  /\ ologged' = ologged \cup MSet(Ev.wal)
+  /\ UNCHANGED <<rn, pc, foreign, stack, onet>>
+\* a message of the node's topic arrived at the other host; the WAL directory was read at that moment
+TrF3Wire ==
+  /\ IsEvent("F3Wire")
+  /\ obs' = [kind |-> "F3W", m |-> M(Ev.m), wal |-> MSet(Ev.wal), loggedBefore |-> ologged]
+  /\ onet' = onet \cup {M(Ev.m)} /\ ologged' = ologged \cup MSet(Ev.wal)
+  /\ UNCHANGED <<rn, pc, owire, foreign, stack>>
+\* the node came up (f3.New + Start over the same datastore and disk path): WAL as read, filter as dumped
+TrF3Start ==
+  /\ IsEvent("F3Start")
+  /\ obs' = [kind |-> "F3S", dump |-> DumpOf(Ev), rearmed |-> Rearm(EmptyFilter, MapM(Ev.wal))]
+  /\ ologged' = ologged \cup MSet(Ev.wal)
+  /\ UNCHANGED <<rn, pc, owire, foreign, stack, onet>>
+TrF3Stop == IsEvent("F3Stop") /\ obs' = NoObs /\ UNCHANGED <<rn, pc, owire, ologged, foreign, stack, onet>>
 
-TNext == TrInfo \/ TrReset \/ TrFBroadcast \/ TrFReceive \/ TrFPush \/ TrFPop \/ TrBroadcast \/ TrRebroadcast \/ TrRestart
+TrInfo == IsEvent("Info") /\ obs' = NoObs /\ UNCHANGED <<rn, pc, owire, ologged, foreign, stack, onet>>
+
+TNext == TrInfo \/ TrF3Request \/ TrF3Enc \/ TrF3Wire \/ TrF3Start \/ TrF3Stop \/ TrReset \/ TrFBroadcast \/ TrFReceive \/ TrFPush \/ TrFPop \/ TrBroadcast \/ TrRebroadcast \/ TrRestart
          \/ TrPurge \/ TrReceive
 
 \* ------------------------------------------------------------------ property monitors (C12)
 \* (under the property's assumption: histories in which another node signs with our identity are exempt)
 C12_OneSignaturePerSlot ==
-  foreign \/ \A i, j \in DOMAIN owire :
-                (owire[i].inst = owire[j].inst /\ Key(owire[i]) = Key(owire[j])) => owire[i].sig = owire[j].sig
+  foreign \/ \A m1, m2 \in SeqToSet(owire) \cup onet : (m1.inst = m2.inst /\ Key(m1) = Key(m2)) => m1.sig = m2.sig
 C12_NoOlderInstance == foreign \/ \A i, j \in DOMAIN owire : i < j => owire[j].inst >= owire[i].inst
 \* at the moment a message was encoded for topic.Publish it was in the WAL directory (as a
 \* restarted process would read it), or had been there before
 C12_LoggedBeforePublished ==
-  obs.kind \in {"B", "R"} =>
+  /\ obs.kind \in {"F3E", "F3W"} => obs.m \in obs.wal \cup obs.loggedBefore
+  /\ obs.kind \in {"B", "R"} =>
      /\ \A i \in DOMAIN obs.enc : M(obs.enc[i].m) \in MSet(obs.encWal[i]) \cup obs.loggedBefore
-     /\ \A i \in DOMAIN obs.wire : \E j \in DOMAIN obs.enc : M(obs.enc[j].m) = obs.wire[i] /\ ~obs.enc[j].aborted
+     /\ \A i \in DOMAIN obs.wire : obs.wire[i] \in obs.loggedBefore \cup UNION {MSet(obs.encWal[j]) : j \in DOMAIN obs.encWal}
 
 \* ------------------------------------------------------------------ conformance
 Conf_FilterVerdict == obs.kind = "F" => obs.ok = obs.pred
 Conf_FilterState == obs.kind \in {"F", "FR", "B", "R", "S", "P", "E"} => obs.dump = rn.f
+\* "the record re-arms the filter on restart": the filter of a node that just came up is what feeding the WAL to it gives
+Conf_RearmedFromWAL == obs.kind = "F3S" => obs.dump = obs.rearmed
 Conf_Published == obs.kind \in {"B", "R"} =>
      LET pub == Published(obs.enc) IN
         IF obs.kind = "B" THEN pub = obs.predPub ELSE SeqToSet(pub) = obs.predPub
@@ -146,11 +173,11 @@ Conf_WAL == obs.kind \in {"B", "R", "S", "P"} => (SeqToSet(obs.wal) = WalSet(rn)
 Conf_Self == obs.kind \in {"B", "R", "S", "P"} => obs.self = rn.self
 
 Clauses == {"C12_OneSignaturePerSlot", "C12_NoOlderInstance", "C12_LoggedBeforePublished",
-            "Conf_FilterVerdict", "Conf_FilterState", "Conf_Published", "Conf_WAL", "Conf_Self"}
+            "Conf_FilterVerdict", "Conf_FilterState", "Conf_RearmedFromWAL", "Conf_Published", "Conf_WAL", "Conf_Self"}
 Holds(c) == CASE c = "C12_OneSignaturePerSlot" -> C12_OneSignaturePerSlot
               [] c = "C12_NoOlderInstance" -> C12_NoOlderInstance
               [] c = "C12_LoggedBeforePublished" -> C12_LoggedBeforePublished
-              [] c = "Conf_FilterVerdict" -> Conf_FilterVerdict [] c = "Conf_FilterState" -> Conf_FilterState
+              [] c = "Conf_FilterVerdict" -> Conf_FilterVerdict [] c = "Conf_FilterState" -> Conf_FilterState [] c = "Conf_RearmedFromWAL" -> Conf_RearmedFromWAL
               [] c = "Conf_Published" -> Conf_Published [] c = "Conf_WAL" -> Conf_WAL [] c = "Conf_Self" -> Conf_Self
 TStep == /\ TNext
          /\ LET nb == {c \in Clauses : ~(Holds(c))'} IN
